@@ -26,7 +26,7 @@ META = {
         "a landmark edge whose offset is None is not judged for accept/reject (documentation allows None in the signature but defines no meaning)",
         "truth table vf/checks/c18.py:expected_valid is trusted",
     ],
-    "required_classes": ["variant:allfixed", "variant:tuple_ids", "variant:npint_ids", "variant:info_zero", "variant:info_rank1", "prebound_stale", "accepted", "rejected", "order:named", "order:reversed", "order:distractor", "id_absent", "landmark", "odometry"],
+    "required_classes": ["variant:edge_deepcopy", "variant:edge_pickle", "variant:allfixed", "variant:tuple_ids", "variant:npint_ids", "variant:info_zero", "variant:info_rank1", "prebound_stale", "accepted", "rejected", "order:named", "order:reversed", "order:distractor", "id_absent", "landmark", "odometry"],
     "bounds": {"quick": "the complete product named in the property + id alphabets (negative, sparse, huge) + custom edges with their own is_valid + all ordered 2-edge graphs over a consistent/inconsistent edge alphabet (a bad edge after a good edge of the same kind; both edges naming the same two vertices) + every vertex-list order of 3..5-vertex graphs (ids 0..N-1 and sparse) + every line order of a 5-line .g2o file with and without an unknown id", "thorough": "same"},
 }
 
@@ -93,7 +93,7 @@ def _cases_prod(edge, pt):
                             yield {"t": "prod", "edge": edge, "ptypes": pt, "meas": meas, "offset": off, "shape": list(sh), "absent": absent, "order": order, "ids": None, "prebound": pre}
                         # the same verdict when every endpoint is marked fixed, when the ids come as a tuple / as numpy integers, and
                         # when the information matrix (of whatever shape) is singular: none of these is part of "consistent"
-                        for var in ("allfixed", "tuple_ids", "npint_ids", "info_zero", "info_rank1"):
+                        for var in ("allfixed", "tuple_ids", "npint_ids", "info_zero", "info_rank1", "edge_deepcopy", "edge_pickle"):
                             yield {"t": "prod", "edge": edge, "ptypes": pt, "meas": meas, "offset": off, "shape": list(sh), "absent": absent, "order": order, "ids": None, "prebound": None, "variant": var}
 
 
@@ -212,6 +212,12 @@ def _build(case):
     else:
         off = _mk_meas(case["offset"], pt[0])
         e = I.EdgeLandmark(named_arg, info, meas, offset=off)
+    if var in ("edge_deepcopy", "edge_pickle"):
+        # the edge handed to Graph() is a standard-library copy of the edge the caller built
+        import copy
+        import pickle
+
+        e = copy.deepcopy(e) if var == "edge_deepcopy" else pickle.loads(pickle.dumps(e))
     if case.get("prebound") == "stale":
         # the edge object arrives already bound to OTHER vertex objects (same ids, e.g. it was used in an earlier graph):
         # construction must re-bind it to the vertices of THIS graph
@@ -227,8 +233,19 @@ def _build(case):
     return e, vl, verts, named_ids
 
 
+def _prelude():
+    """history carried by every case: an inconsistent graph has been rejected (and the error caught) earlier in this process"""
+    v = [I.Vertex(900, I.mk_pose("SE2", _VAL["SE2"])), I.Vertex(901, I.mk_pose("SE2", _VAL["SE2"]))]
+    bad = I.EdgeOdometry([900, 901], np.eye(2), I.mk_pose("SE2", _VAL["SE2"]))
+    try:
+        I.Graph([bad], v)
+    except Exception:
+        pass
+
+
 def _eval(case):
     try:
+        _prelude()
         return _eval_unguarded(case)
     except Exception as ex:  # anything unexpected while judging a case is reported against the case, not as a harness crash
         import traceback
@@ -484,6 +501,10 @@ def _cases_file():
     for perm in itertools.permutations(range(5)):
         for unknown in (None, 3, 4):
             yield {"t": "file", "perm": list(perm), "unknown": unknown}
+    # ids beyond 2^53 (not representable as doubles): a neighbouring id is still another id
+    for perm in ([0, 1, 2, 3, 4], [3, 4, 0, 1, 2], [4, 2, 3, 1, 0]):
+        for unknown in (None, 3, 4):
+            yield {"t": "file", "perm": list(perm), "unknown": unknown, "bigids": True}
 
 
 def _eval_file(case):
@@ -492,7 +513,16 @@ def _eval_file(case):
     import tempfile
 
     lines = list(_FILE_LINES)
-    if case["unknown"] == 3:
+    big = {0: 2**53, 4: 2**53 + 2, 2: 2**60 + 1}
+    if case.get("bigids"):
+        lines = [
+            "VERTEX_SE2 %d 0.1 -0.2 0.3" % big[0],
+            "VERTEX_SE2 %d 1.5 2.5 -3.0" % big[4],
+            "VERTEX_XY %d 4.0 -5.5" % big[2],
+            "EDGE_SE2 %d %d 1.1 1.2 0.4 1.5 0.0 0.0 2.5 0.0 3.5" % (big[0], big[4] + (-1 if case["unknown"] == 3 else 0)),
+            "EDGE_SE2_XY %d %d 0.7 -0.8 7.25 0.0 9.25" % (big[4], big[2] + (1 if case["unknown"] == 4 else 0)),
+        ]
+    elif case["unknown"] == 3:
         lines[3] = lines[3].replace("EDGE_SE2 0 4", "EDGE_SE2 0 44")
     elif case["unknown"] == 4:
         lines[4] = lines[4].replace("EDGE_SE2_XY 4 2", "EDGE_SE2_XY 4 22")
@@ -524,6 +554,8 @@ def _eval_file(case):
     else:
         for e, k in zip(es, want):
             a, b = (0, 4) if k == 3 else (4, 2)
+            if case.get("bigids"):
+                a, b = big[a], big[b]
             if list(e.vertex_ids) != [a, b] or e.vertices is None or e.vertices[0] is not byid.get(a) or e.vertices[1] is not byid.get(b):
                 msgs.append("edge of file line %d is not bound to the vertices with ids (%d, %d)" % (k, a, b))
     return msgs, "accepted"
